@@ -1,6 +1,14 @@
 (* C09_mgeo: the GENERATED Minor.geocentric_position (elliptic regime e < 0.98 and near-parabolic
    regime e >= 0.98, |e-1| >= tol) and Minor.heliocentric_ecliptical_position, ideal instance,
    with kepler_equation / _near_parabolic / Sun.rectangular_coordinates_j2000 abstracted.
+   The callee hypotheses are stated ONLY for the arguments the body really passes:
+   kepler_equation at the two mean anomalies of the two light-time passes (eccentricity in
+   [0, 0.98), inside the callee's domain [0,1)); _near_parabolic at the two times.
+   For kepler_equation the hypotheses are shown to be satisfiable by what the model returns
+   (kepler_sat_*, from the characterisation theorem of C11, copied as C09_K_kepler).
+   For _near_parabolic they are NOT always satisfiable (the model raises ValueError for
+   0.98 <= e < ~0.9975 far from perihelion: known finding): that theorem is a PARTIAL
+   CORRECTNESS statement, conditional on the two calls returning.
    The parabolic regime |e-1| < tol runs a data-dependent while loop (Barker's equation by
    iteration) and is not covered here. *)
 From Coq Require Import Reals ZArith List Bool Lra Lia String.
@@ -8,6 +16,7 @@ From PyLib Require Import PyVal PyBuiltins Ideal IdealFacts Whnf PyEval Sphere.
 From Spec Require Import AngleSpec.
 From Gen Require Import M_base M_Angle M_Epoch M_Coordinates M_Earth M_Sun M_Minor.
 From Proofs.C09 Require Import C09_A_defs C09_A_reduce C09_A_construct C09_spec C09_geo C09_tac C09_mbody.
+From Proofs.C09 Require C09_K_tac C09_K_kepler.
 Import ListNotations.
 Open Scope R_scope.
 
@@ -16,25 +25,39 @@ Ltac2 Set Whnf.is_blocked as old := fun c =>
     ['@Angle___init__; '@Angle_to_positive; '@Angle_rad;
      '@f_kepler_equation; '@Minor__near_parabolic; '@Sun_rectangular_coordinates_j2000]).
 
+(* what the model's kepler_equation returns inside its domain (C11's characterisation) *)
+Lemma kepler_returns e M : 0 <= e < 1 ->
+  exists Ed vd, f_kepler_equation Rops (VFloat e) (ang M) = VTuple [ang Ed; ang vd] /\ -360 < Ed < 360.
+Proof.
+  intro He. destruct (C09_K_kepler.kepler_ideal e M He) as (Ed & vd & K & k & R1 & _).
+  exists Ed, vd. split; [exact K | lra].
+Qed.
+
 Section M.
 (* any Minor object: fields _tol, _aa, _bb, _cc, _am, _bm, _cm, _q, _e, _i, _omega, _w, _t, _n, _a *)
 Variables aa bb cc am bm cm q e inc om w tp n a : R.
 Definition mobj : val R :=
   VObj cMinor [VFloat tol0; VFloat aa; VFloat bb; VFloat cc; VFloat am; VFloat bm; VFloat cm;
                VFloat q; VFloat e; ang inc; ang om; ang w; ep tp; VFloat n; VFloat a].
-(* kepler_equation(e, M) returns (E, v) in degrees, E within (-360, 360) *)
 Variables kE kv : R -> R -> R.
-Hypothesis Hkep : forall e m, f_kepler_equation Rops (VFloat e) (ang m) = VTuple [ang (kE e m); ang (kv e m)].
-Hypothesis HkE : forall e m, -360 < kE e m < 360.
-(* _near_parabolic(t) returns (v, r) *)
-Variables npv npr : R -> R.
-Hypothesis Hnp : forall t, Minor__near_parabolic Rops mobj (VFloat t) = VTuple [ang (npv t); VFloat (npr t)].
 Variables j sxj syj szj : R.
 Hypothesis Hsun : Sun_rectangular_coordinates_j2000 Rops (ep j) = VTuple [VFloat sxj; VFloat syj; VFloat szj].
 
 (* elliptic regime: mean anomaly red360(dt n), E to [0,360), r = a (1 - e cos E) *)
 Definition vfE (dt : R) : R := kv e (red360 (dt * n)).
 Definition rfE (dt : R) : R := a * (Rlit 10 (-1) - e * cos (pos360 (kE e (red360 (dt * n))) * (PI / 180))).
+(* the two mean anomalies (degrees) handed to kepler_equation *)
+Definition mA1 : R := red360 ((j - tp) * n).
+Definition mA2 : R := red360 ((j - tp - tauM aa bb cc am bm cm w sxj syj szj (j - tp) vfE rfE) * n).
+
+Section Elliptic.
+Hypothesis He : e < Rlit 98 (-2).
+(* the two calls of kepler_equation the body makes return (E, v) in degrees, E within (-360,360) *)
+Hypothesis Hk1 : f_kepler_equation Rops (VFloat e) (ang mA1) = VTuple [ang (kE e mA1); ang (kv e mA1)].
+Hypothesis HE1 : -360 < kE e mA1 < 360.
+Hypothesis Hk2 : f_kepler_equation Rops (VFloat e) (ang mA2) = VTuple [ang (kE e mA2); ang (kv e mA2)].
+Hypothesis HE2 : -360 < kE e mA2 < 360.
+Hypothesis Hden : denM aa bb cc am bm cm w sxj syj szj (j - tp) vfE rfE <> 0.
 
 Ltac py9_hook s tac ::=
   lazymatch s with
@@ -42,15 +65,12 @@ Ltac py9_hook s tac ::=
   | Angle___init__ Rops (VObj cAngle [VNone; VNone]) (VTuple [VFloat ?x]) (VDict []) => rw_with s (init_float_raw x)
   | Angle___init__ Rops (VObj cAngle [VNone; VNone]) (VTuple [VObj cAngle [VFloat ?d; VFloat ?t]]) (VDict []) => rw_with s (init_copy d t)
   | Angle_rad Rops (VObj cAngle [VFloat ?a; VFloat ?ta]) => rw_with s (rad_ideal a ta)
-  | Angle_to_positive Rops (VObj cAngle [VFloat (kE ?e ?m); VFloat ?ta]) => rw_with s (to_positive_ideal (kE e m) ta (HkE e m))
-  | f_kepler_equation Rops (VFloat ?e) (VObj cAngle [VFloat ?m; _]) => rw_with s (Hkep e m)
-  | Minor__near_parabolic Rops _ (VFloat ?t) => rw_with s (Hnp t)
+  | Angle_to_positive Rops (VObj cAngle [VFloat (kE ?e (red360 ((_ - _ - _) * _))); VFloat ?ta]) => rw_with s (to_positive_ideal (kE e mA2) ta HE2)
+  | Angle_to_positive Rops (VObj cAngle [VFloat (kE ?e _); VFloat ?ta]) => rw_with s (to_positive_ideal (kE e mA1) ta HE1)
+  | f_kepler_equation Rops _ (VObj cAngle [VFloat (red360 ((_ - _ - _) * _)); _]) => rw_with s Hk2
+  | f_kepler_equation Rops _ _ => rw_with s Hk1
   | Sun_rectangular_coordinates_j2000 Rops _ => rw_with s Hsun
   end.
-
-Section Elliptic.
-Hypothesis He : e < Rlit 98 (-2).
-Hypothesis Hden : denM aa bb cc am bm cm w sxj syj szj (j - tp) vfE rfE <> 0.
 Ltac dec_m :=
   first [ sq_nonneg
         | match goal with |- _ <> 0 => exact Hden end
@@ -62,13 +82,29 @@ Theorem minor_geo_elliptic :
   VTuple [ang (raM aa bb cc am bm cm w sxj syj szj (j - tp) vfE rfE);
           ang (decM aa bb cc am bm cm w sxj syj szj (j - tp) vfE rfE);
           ang (psiM aa bb cc am bm cm w sxj syj szj (j - tp) vfE rfE)].
-Proof. unfold ep, mobj, ang, angT. pyrun9_using dec_m. reflexivity. Qed.
+Proof. unfold ep, mobj, ang, angT, mA1, mA2 in *. pyrun9_using dec_m. reflexivity. Qed.
 End Elliptic.
 
 Section NearParabolic.
+Variables npv npr : R -> R.
 Hypothesis He1 : Rlit 98 (-2) <= e.
 Hypothesis He2 : tol0 <= Rabs (e - 1).
+(* PARTIAL CORRECTNESS: IF the two calls of _near_parabolic the body makes (at t - T and at
+   t - T - tau) return (v, r) -- they may raise ValueError('No convergence') -- THEN ... *)
+Definition tN2 : R := j - tp - tauM aa bb cc am bm cm w sxj syj szj (j - tp) npv npr.
+Hypothesis Hnp1 : Minor__near_parabolic Rops mobj (VFloat (j - tp)) = VTuple [ang (npv (j - tp)); VFloat (npr (j - tp))].
+Hypothesis Hnp2 : Minor__near_parabolic Rops mobj (VFloat tN2) = VTuple [ang (npv tN2); VFloat (npr tN2)].
 Hypothesis Hden : denM aa bb cc am bm cm w sxj syj szj (j - tp) npv npr <> 0.
+Ltac py9_hook s tac ::=
+  lazymatch s with
+  | Angle___init__ Rops (VObj cAngle [VNone; VNone]) (VTuple [VFloat ?x]) (VDict [kw "radians" (VBool true)]) => rw_with s (init_rad x)
+  | Angle___init__ Rops (VObj cAngle [VNone; VNone]) (VTuple [VFloat ?x]) (VDict []) => rw_with s (init_float_raw x)
+  | Angle___init__ Rops (VObj cAngle [VNone; VNone]) (VTuple [VObj cAngle [VFloat ?d; VFloat ?t]]) (VDict []) => rw_with s (init_copy d t)
+  | Angle_rad Rops (VObj cAngle [VFloat ?a; VFloat ?ta]) => rw_with s (rad_ideal a ta)
+  | Minor__near_parabolic Rops _ (VFloat (_ - _ - _)) => rw_with s Hnp2
+  | Minor__near_parabolic Rops _ _ => rw_with s Hnp1
+  | Sun_rectangular_coordinates_j2000 Rops _ => rw_with s Hsun
+  end.
 Ltac dec_m :=
   first [ sq_nonneg
         | match goal with |- _ <> 0 => exact Hden end
@@ -80,10 +116,10 @@ Theorem minor_geo_near_parabolic :
   VTuple [ang (raM aa bb cc am bm cm w sxj syj szj (j - tp) npv npr);
           ang (decM aa bb cc am bm cm w sxj syj szj (j - tp) npv npr);
           ang (psiM aa bb cc am bm cm w sxj syj szj (j - tp) npv npr)].
-Proof. unfold ep, mobj, ang, angT, tol0 in *. pyrun9_using dec_m. reflexivity. Qed.
+Proof. unfold ep, mobj, ang, angT, tol0, tN2 in *. pyrun9_using dec_m. reflexivity. Qed.
 End NearParabolic.
 
-(* heliocentric ecliptical position: always through kepler_equation *)
+(* heliocentric ecliptical position: always through kepler_equation (one call, at mA1) *)
 Definition ecl_x (dt : R) : R :=
   rfE dt * (cos (om * (PI / 180)) * cos (w * (PI / 180) + vfE dt * (PI / 180))
             - sin (om * (PI / 180)) * sin (w * (PI / 180) + vfE dt * (PI / 180)) * cos (inc * (PI / 180))).
@@ -92,9 +128,60 @@ Definition ecl_y (dt : R) : R :=
             + cos (om * (PI / 180)) * sin (w * (PI / 180) + vfE dt * (PI / 180)) * cos (inc * (PI / 180))).
 Definition ecl_z (dt : R) : R :=
   rfE dt * sin (inc * (PI / 180)) * sin (w * (PI / 180) + vfE dt * (PI / 180)).
+Section Helio.
+Hypothesis Hk1 : f_kepler_equation Rops (VFloat e) (ang mA1) = VTuple [ang (kE e mA1); ang (kv e mA1)].
+Hypothesis HE1 : -360 < kE e mA1 < 360.
+Ltac py9_hook s tac ::=
+  lazymatch s with
+  | Angle___init__ Rops (VObj cAngle [VNone; VNone]) (VTuple [VFloat ?x]) (VDict [kw "radians" (VBool true)]) => rw_with s (init_rad x)
+  | Angle___init__ Rops (VObj cAngle [VNone; VNone]) (VTuple [VFloat ?x]) (VDict []) => rw_with s (init_float_raw x)
+  | Angle___init__ Rops (VObj cAngle [VNone; VNone]) (VTuple [VObj cAngle [VFloat ?d; VFloat ?t]]) (VDict []) => rw_with s (init_copy d t)
+  | Angle_rad Rops (VObj cAngle [VFloat ?a; VFloat ?ta]) => rw_with s (rad_ideal a ta)
+  | Angle_to_positive Rops (VObj cAngle [VFloat (kE ?e _); VFloat ?ta]) => rw_with s (to_positive_ideal (kE e mA1) ta HE1)
+  | f_kepler_equation Rops _ _ => rw_with s Hk1
+  end.
 Theorem minor_helio :
   Minor_heliocentric_ecliptical_position Rops mobj (ep j) =
   VTuple [ang (red360 (lam_of (ecl_x (j - tp)) (ecl_y (j - tp)) * (180 / PI)));
           ang (red360 (bet_of (ecl_x (j - tp)) (ecl_y (j - tp)) (ecl_z (j - tp)) * (180 / PI)))].
-Proof. unfold ep, mobj, ang, angT. pyrun9_using ltac:(first [sq_nonneg | pylra]). reflexivity. Qed.
+Proof. unfold ep, mobj, ang, angT, mA1 in *. pyrun9_using ltac:(first [sq_nonneg | pylra]). reflexivity. Qed.
+End Helio.
 End M.
+
+(* ---- the kepler_equation hypotheses are satisfiable by what the model returns ---- *)
+(* for every object and epoch with 0 <= e < 0.98 there are kE, kv meeting the four hypotheses
+   Hk1, HE1, Hk2, HE2 of minor_geo_elliptic (and Hk1, HE1 of minor_helio for 0 <= e < 1) *)
+Lemma kepler_sat_helio e n tp j : 0 <= e < 1 ->
+  exists kE kv : R -> R -> R,
+    f_kepler_equation Rops (VFloat e) (ang (mA1 tp n j)) = VTuple [ang (kE e (mA1 tp n j)); ang (kv e (mA1 tp n j))]
+    /\ -360 < kE e (mA1 tp n j) < 360.
+Proof.
+  intro He. destruct (kepler_returns e (mA1 tp n j) He) as (E1 & v1 & K & R1).
+  exists (fun _ _ => E1), (fun _ _ => v1). split; assumption.
+Qed.
+
+Lemma kepler_sat_geo aa bb cc am bm cm e w tp n a j sxj syj szj : 0 <= e < 1 ->
+  exists kE kv : R -> R -> R,
+    let m1 := mA1 tp n j in let m2 := mA2 aa bb cc am bm cm e w tp n a kE kv j sxj syj szj in
+    f_kepler_equation Rops (VFloat e) (ang m1) = VTuple [ang (kE e m1); ang (kv e m1)] /\ -360 < kE e m1 < 360 /\
+    f_kepler_equation Rops (VFloat e) (ang m2) = VTuple [ang (kE e m2); ang (kv e m2)] /\ -360 < kE e m2 < 360.
+Proof.
+  intro He. set (m1 := mA1 tp n j).
+  destruct (kepler_returns e m1 He) as (E1 & v1 & K1 & R1).
+  set (m2 := mA2 aa bb cc am bm cm e w tp n a (fun _ _ => E1) (fun _ _ => v1) j sxj syj szj).
+  destruct (kepler_returns e m2 He) as (E2 & v2 & K2 & R2).
+  set (kE := fun (_ m : R) => if Req_EM_T m m1 then E1 else E2).
+  set (kv := fun (_ m : R) => if Req_EM_T m m1 then v1 else v2).
+  exists kE, kv. cbv zeta.
+  assert (A1 : kE e m1 = E1) by (unfold kE; destruct (Req_EM_T m1 m1); [reflexivity | contradiction]).
+  assert (B1 : kv e m1 = v1) by (unfold kv; destruct (Req_EM_T m1 m1); [reflexivity | contradiction]).
+  assert (Em : mA2 aa bb cc am bm cm e w tp n a kE kv j sxj syj szj = m2).
+  { unfold m2, mA2, tauM, gxM, gyM, gzM, hxM, hyM, hzM, vfE, rfE. fold (mA1 tp n j). fold m1.
+    rewrite A1, B1. reflexivity. }
+  fold m1. rewrite Em, A1, B1.
+  split; [exact K1|]. split; [exact R1|].
+  unfold kE, kv. destruct (Req_EM_T m2 m1) as [Eq | Ne].
+  - rewrite Eq. split; [exact K1 | exact R1].
+  - split; [exact K2 | exact R2].
+Qed.
+
